@@ -23,6 +23,8 @@ def c01(run):
     n = 20000 if run.quick else 300000
     run.gen_replay("Gen_Expr", gen_cfg(dict(Scope="sim", ShapeLeaves=3)), ["replay-prog"], "C01:sim",
                    simulate=10 ** 9, depth=8 if run.quick else 12, workers=1, max_cases=n)
+    # short-circuit jumps whose distance crosses 255/256 and 511/512 (taken and not taken), outcome in closed form
+    run.gen_replay("Gen_Total", cfg(constants=dict(Scope="jumps", MaxLen=1), invariants=("Emit",)), ["replay-total"], "C01:jumps")
     tv_vm(run, "C01:vm", 600 if run.quick else 6000)
     run.exhaustive = False
 
@@ -102,6 +104,8 @@ def c02(run):
                 "BclSem gives it (prints, block tree, compile/runtime error), run through bcl.Interpret. Non-trivial = block body of "
                 "at least two items; distinct by source text.")
     mc_chain(run, "scope", 1 if run.quick else 2)
+    # many variables: slot numbers and pop counts across 240/241 and 255/256, every operand value 0..40 (closed-form outcome)
+    run.gen_replay("Gen_Total", cfg(constants=dict(Scope="varscale", MaxLen=1), invariants=("Emit",)), ["replay-total"], "C02:varscale")
     run.gen_replay("Gen_Prog", gen_cfg(dict(Scope="scope", MaxItems=2)), ["replay-prog"], "C02:scope")
     tv_vm(run, "C02:vm", 500 if run.quick else 5000, seed_off=2)
     run.exhaustive = True
@@ -148,6 +152,8 @@ def c17(run):
                    simulate=10 ** 9, depth=42, workers=1, max_cases=20000 if q else 400000)
     run.gen_replay("Gen_Gram", gen_cfg(dict(Scope="recover", MaxLen=3 if q else 4), invariants=("EmitR", "GoodOk")), ["replay-gram"], "C17:recover")
     run.gen_replay("Gen_Gram", gen_cfg(dict(Scope="assign", MaxLen=1), invariants=("Emit", "AsgOk")), ["replay-gram"], "C17:assign")
+    run.gen_replay("Gen_Gram", gen_cfg(dict(Scope="bindsel", MaxLen=1)), ["replay-gram"], "C17:bindsel")
+    run.gen_replay("Gen_Gram", gen_cfg(dict(Scope="comments", MaxLen=2 if q else 3)), ["replay-gram"], "C17:comments")
     chk_comp(run, "C17:comp", 1200 if q else 12000, ("accept-mismatch",),
              case_sources=[("Gen_Gram", gen_cfg(dict(Scope="assign", MaxLen=1)), {})], max_cases=4000)
     run.exhaustive = False
@@ -162,6 +168,9 @@ def bind_stages(run, pid, only):
         run.gen_replay("Gen_Bind", gen_cfg(dict(Scope="fields", MaxFields=2, Small=False), invariants=inv), ["replay-bind", "--only", only], pid + ":fields")
         run.gen_replay("Gen_Bind", gen_cfg(dict(Scope="fields", MaxFields=3, Small=True), invariants=inv), ["replay-bind", "--only", only], pid + ":fields3")
     run.gen_replay("Gen_Bind", gen_cfg(dict(Scope="targets", MaxFields=2, Small=True)), ["replay-bind", "--only", only], pid + ":targets")
+    if only == "c05":
+        # many blocks: 1..300 named blocks with int/string/bool/float fields bound to a slice (all) or a struct (last), value in closed form
+        run.gen_replay("Gen_Bind", gen_cfg(dict(Scope="big", MaxFields=2, Small=True)), ["replay-bind", "--only", only], pid + ":big")
 
 
 def c05(run):
@@ -318,7 +327,7 @@ def c10(run):
     mc_chain(run, "bind", 3, invs=("CodeWellFormed",))
     mc_chain(run, "blocks", 2, invs=("CodeWellFormed",))
     # programs whose slot numbers, POPN counts and constant indices cross 240/241 and 255/256 (all of them, no stride)
-    d0, n0 = real_dumps(run, "C10:scale", dump_sources(run)[:1], 100, stride=1, maxlen=20000)
+    d0, n0 = real_dumps(run, "C10:scale", dump_sources(run)[:1], 1000, stride=1, maxlen=20000)
     tlc_on_dumps(run, "C10:scale-paths", d0, n0, ("WellFormed", "Unique"))
     dumps, n = real_dumps(run, "C10:real", dump_sources(run)[1:], 2500 if run.quick else 20000, stride=7 if run.quick else 3)
     tlc_on_dumps(run, "C10:paths", dumps, n, ("WellFormed", "Unique"))
